@@ -1017,7 +1017,16 @@ func (g *psGen) hostile() {
 			}
 		}
 	}
-	switch t.Choose(12) {
+	switch t.Choose(16) {
+	case 12:
+		w("1183615869 internaldict /evil " + val() + " put")
+	case 13:
+		// non-idempotent in-place change of the standard encoding array
+		w(fmt.Sprintf("StandardEncoding %d StandardEncoding %d get put", t.Choose(256), t.Choose(256)))
+	case 14:
+		w("systemdict /systemdict get /" + sim.Pick(t, sysOps[:60]) + " " + val() + " put")
+	case 15:
+		w("/CIDInit /ProcSet findresource dup /" + sim.Pick(t, cidOps) + " get /saved exch def /" + sim.Pick(t, cidOps) + " /saved load put")
 	case 0:
 		w("systemdict /" + sim.Pick(t, sysOps[:60]) + " " + val() + " put")
 	case 1:
